@@ -162,10 +162,18 @@ func c17Fresh(kr *keyring) []string {
 	return out
 }
 
+var sharedOp *jwt.OperatorClaims
+
 // read-only queries on one shared object
 func c17Shared(ac *jwt.AccountClaims, uc *jwt.UserClaims, act *jwt.ActivationClaims) []string {
 	var out []string
 	add := func(format string, a ...interface{}) { out = append(out, fmt.Sprintf(format, a...)) }
+	if sharedOp != nil {
+		// an operator whose key list has spare capacity (three keys in a backing array of four)
+		add("op didsign=%v %v %v", sharedOp.DidSign(sharedOp), sharedOp.DidSign(ac), sharedOp.DidSign(uc))
+		add("op tags=%v type=%s", sharedOp.GetTags(), sharedOp.ClaimType())
+		add("op spare=%q", sharedOp.SigningKeys[:cap(sharedOp.SigningKeys)][len(sharedOp.SigningKeys):])
+	}
 	add("string=%d", len(ac.String()))
 	add("didsign=%v %v", ac.DidSign(uc), ac.DidSign(act))
 	add("revoked=%v", ac.IsClaimRevoked(uc))
@@ -247,6 +255,12 @@ func runC17(c *Ctx) {
 		MaxAckPending: -1, MemoryMaxStreamBytes: -1, DiskMaxStreamBytes: -1}
 	shared.Limits.JetStreamTieredLimits = nil
 	sharedBefore := canonString(reflect.ValueOf(shared).Elem())
+	sharedOp = jwt.NewOperatorClaims(kr.by["operator"].pub)
+	sharedOp.SigningKeys = make(jwt.StringList, 0, 4)
+	for i := 0; i < 3; i++ {
+		sharedOp.SigningKeys = append(sharedOp.SigningKeys, newSigner("operator").pub)
+	}
+	sharedOp.Tags.Add("x", "y", "z")
 	sharedU, _ := jwt.DecodeUserClaims(userTok)
 	sharedA, _ := jwt.DecodeActivationClaims(tokens["activation"])
 	baseShared := norm(c17Shared(shared, sharedU, sharedA))
